@@ -315,6 +315,7 @@ func c18prop(r *simkit.Run) {
 	window := m.CounterWindowSize()
 	w := newWorld(r, cfg)
 	defer w.sim.Shutdown()
+	w.abandoned = drawAbandoned(rt)
 
 	latencies := []time.Duration{5 * time.Millisecond, 50 * time.Millisecond, 500 * time.Millisecond, 5 * time.Second}
 	statuses := []int{200, 200, 201, 404, 500, 502, 503, 504, 0}
